@@ -23,7 +23,14 @@ def str_tok(rng, s):
     return cedar.str_lit(s)
 
 
-def type_toks(t):
+DEEP_NS = [("Org",), ("A", "B"), ("Corp", "Dept", "Team"), ("a1", "b_2", "C3", "d")]
+
+
+def type_toks(t, rng=None):
+    """tokens of an entity type name; with an rng the name is sometimes qualified by 1-4 extra namespace segments
+       (every `::` of a long path is a place where a comment can be attached)"""
+    if rng is not None and rng.random() < 0.3:
+        t = tuple(rng.choice(DEEP_NS)) + tuple(t)
     out = []
     for i, c in enumerate(t):
         if i:
@@ -33,7 +40,7 @@ def type_toks(t):
 
 
 def uid_toks(rng, u):
-    return type_toks(u[1]) + ["::", str_tok(rng, u[2])]
+    return type_toks(u[1], None if tuple(u[1]) == ("Action",) else rng) + ["::", str_tok(rng, u[2])]
 
 
 class TokGen:
@@ -163,7 +170,7 @@ class TokGen:
         if k == "like":
             return self.e(x[1], ADD) + ["like", cedar.pattern_text(x[2])], REL
         if k == "is":
-            out = self.e(x[1], ADD) + ["is"] + type_toks(x[2])
+            out = self.e(x[1], ADD) + ["is"] + type_toks(x[2], self.r)
             if r.random() < 0.35:
                 self.count("is_in")
                 out += ["in"] + self.e(("lit", ("entity", cedar.U(("NS", "Group"), "g1"))) if r.random() < 0.6
@@ -256,9 +263,9 @@ def scope_toks(rng, var, template):
     if c == 3:
         return [var, "in", *ent]
     if c == 4 and not template:
-        return [var, "is", *type_toks(r.choice(gen.TYPES[:3]))]
+        return [var, "is", *type_toks(r.choice(gen.TYPES[:3]), r)]
     if c == 5:
-        return [var, "is", *type_toks(r.choice(gen.TYPES[:3])), "in", *ent]
+        return [var, "is", *type_toks(r.choice(gen.TYPES[:3]), r), "in", *ent]
     return [var, "==", *ent]
 
 
